@@ -118,9 +118,16 @@ func normalizeServerSettings(settings serverSettings) serverSettings {
 }
 
 func (s *Server) setSettings(settings serverSettings) {
-	settings = normalizeServerSettings(settings)
+	s.updateSettings(func(serverSettings) serverSettings { return settings })
+}
+
+// updateSettings replaces the settings by update(current settings) in one
+// critical section, so that two concurrent configuration refreshes cannot both
+// start from the same old settings and lose one another's changes.
+func (s *Server) updateSettings(update func(serverSettings) serverSettings) {
 	s.settingsMu.Lock()
 	oldSettings := s.settings
+	settings := normalizeServerSettings(update(oldSettings))
 	s.settings = settings
 	s.settingsMu.Unlock()
 	if s.loader != nil {
@@ -149,8 +156,10 @@ func (s *Server) refreshConfiguration(ctx context.Context) {
 	if err != nil || len(result) == 0 {
 		return
 	}
-	settings := parseSettingsFromRaw(s.getSettings(), result[0])
-	s.setSettings(settings)
+	raw := result[0]
+	s.updateSettings(func(current serverSettings) serverSettings {
+		return parseSettingsFromRaw(current, raw)
+	})
 }
 
 func (s *Server) DidChangeConfiguration(_ context.Context, _ *protocol.DidChangeConfigurationParams) error {
